@@ -56,3 +56,15 @@ func init() {
 	propSpecs["C16"] = &PropSpec{ID: "C16", Roots: roots,
 		Note: "ReadRemaining: for all 256 values of the first byte (one bit-vector variable) the dynamic type of the returned packet is the one selected by the upper nibble (Undefined for 0) and, for types 1..15, its stored first byte equals the received one (UnmarshalBinary of every type is proved not to change it); Publish.QoS/Duplicate/Retain decode bits 2-1, 3 and 0; every packet's fill writes the stored first byte at offset 0, so re-encoding reproduces it"}
 }
+
+func init() {
+	propSpecs["C12"] = &PropSpec{ID: "C12", Prepare: prepareC12,
+		Roots: []string{"(*UserProperties).AddUserProp", "(*Publish).AddSubscriptionID", "(*Subscribe).AddFilters", "(*Unsubscribe).AddFilter",
+			"(*SubAck).AddReasonCode", "(*UnsubAck).AddReasonCode", "(*bits).toggle"},
+		Note: "for every SetX/X pair of the public API (pairs found by name, not by field): after SetX(v) the accessor X() returns v (strings and binaries by content) and every other accessor of the type returns what it returned before the call; since no setter has a precondition on the packet state, last-write-wins for every sequence of calls follows by induction over the sequence. Derived flags (CONNECT user-name/password/will/clean-start bits, CONNACK session present, PUBLISH DUP/QoS/RETAIN) have explicit bit-vector postconditions; adders append in order"}
+}
+
+func init() {
+	propSpecs["C17"] = &PropSpec{ID: "C17", Roots: []string{"(*Publish).WellFormed", "(*TopicFilter).WellFormed", "(*Subscribe).WellFormed", "(*Publish).String", "(*Subscribe).String"},
+		Note: "WellFormed of Publish, TopicFilter and Subscribe returns an error exactly under the documented conditions (iff postconditions over all packet states; the filter loop with a quantified invariant); String() is produced by the 'malformed!' format exactly when WellFormed() != nil (ghost: which constant format string produced a Sprintf result)"}
+}
